@@ -1740,18 +1740,11 @@ struct const_subarray : array_types<T, D, ElementPtr, Layout> {
 			>
 		>(std::forward<UF>(fun));
 	}
+	// a read-only view projects to a read-only view whatever the constness or value category of the view object (subarray adds the mutable overloads)
 	template<class UF>
-	constexpr auto element_transformed(UF&& fun)  & {
-		return static_array_cast_<
-			std::decay_t<std::invoke_result_t<UF const&, element_ref >>,
-			transform_ptr<
-				std::decay_t<std::invoke_result_t<UF const&, element_ref >>,
-				UF, element_ptr      , std::invoke_result_t<UF const&, element_ref >
-			>
-		>(std::forward<UF>(fun));
-	}
+	constexpr auto element_transformed(UF&& fun)  & {return static_cast<const_subarray const&>(*this).element_transformed(std::forward<UF>(fun));}
 	template<class UF>
-	constexpr auto element_transformed(UF&& fun) && {return element_transformed(std::forward<UF>(fun));}
+	constexpr auto element_transformed(UF&& fun) && {return static_cast<const_subarray const&>(*this).element_transformed(std::forward<UF>(fun));}
 
 	template<
 		class T2, class P2 = typename std::pointer_traits<typename const_subarray::element_ptr>::template rebind<T2 const>,
@@ -1768,26 +1761,21 @@ struct const_subarray : array_types<T, D, ElementPtr, Layout> {
 	}
 
 	template<
-		class T2, class P2 = typename std::pointer_traits<typename const_subarray::element_ptr>::template rebind<T2>,
+		class T2, class P2 = typename std::pointer_traits<typename const_subarray::element_ptr>::template rebind<T2 const>,
 		class Element = typename const_subarray::element,
 		class PM = T2 Element::*
 	>
 	constexpr auto member_cast(PM member) & -> subarray<T2, D, P2> {
-		static_assert(sizeof(T)%sizeof(T2) == 0,
-			"array_member_cast is limited to integral stride values, therefore the element target size must be multiple of the source element size. "
-			"Use custom alignas structures (to the interesting member(s) sizes) or custom pointers to allow reintrepreation of array elements"
-		);
-
-		return subarray<T2, D, P2>{this->layout().scale(sizeof(T), sizeof(T2)), static_cast<P2>(&(this->base_->*member))};
+		return static_cast<const_subarray const&>(*this).template member_cast<T2, P2, Element, PM>(member);
 	}
 
 	template<
-		class T2, class P2 = typename std::pointer_traits<typename const_subarray::element_ptr>::template rebind<T2>,
+		class T2, class P2 = typename std::pointer_traits<typename const_subarray::element_ptr>::template rebind<T2 const>,
 		class Element = typename const_subarray::element,
 		class PM = T2 Element::*
 	>
 	constexpr auto member_cast(PM member) && -> subarray<T2, D, P2> {
-		return this->member_cast<T2, P2, Element, PM>(member);
+		return static_cast<const_subarray const&>(*this).template member_cast<T2, P2, Element, PM>(member);
 	}
 
 	template<class T2, class P2 = typename std::pointer_traits<typename const_subarray::element_ptr>::template rebind<T2>>
@@ -1977,6 +1965,46 @@ class subarray : public const_subarray<T, D, ElementPtr, Layout> {
 	// a mutable view is rebuilt from mutable iterators only (the inherited constructor takes read-only iterators)
 	subarray(iterator_or_none_ first, iterator_or_none_ last) : const_subarray<T, D, ElementPtr, Layout>(first, last) {}
 	subarray(const_iterator_or_none_ first, const_iterator_or_none_ last) = delete;
+
+	template<class UF>
+	constexpr auto element_transformed(UF&& fun) const& {return static_cast<const_subarray<T, D, ElementPtr, Layout> const&>(*this).element_transformed(std::forward<UF>(fun));}
+	template<class UF>
+	constexpr auto element_transformed(UF&& fun) & {
+		using transformed_ref = std::invoke_result_t<UF const&, typename subarray::element_ref>;
+		using transformed_ptr = transform_ptr<std::decay_t<transformed_ref>, UF, ElementPtr, transformed_ref>;
+		return subarray<std::decay_t<transformed_ref>, D, transformed_ptr>(this->layout(), transformed_ptr{this->base_, std::forward<UF>(fun)});
+	}
+	template<class UF>
+	constexpr auto element_transformed(UF&& fun) && {return this->element_transformed(std::forward<UF>(fun));}
+
+	template<
+		class T2, class P2 = typename std::pointer_traits<ElementPtr>::template rebind<T2 const>,
+		class Element = T,
+		class PM = T2 std::decay_t<Element>::*
+	>
+	constexpr auto member_cast(PM member) const& {
+		return static_cast<const_subarray<T, D, ElementPtr, Layout> const&>(*this).template member_cast<T2, P2, Element, PM>(member);
+	}
+	template<
+		class T2, class P2 = typename std::pointer_traits<ElementPtr>::template rebind<T2>,
+		class Element = T,
+		class PM = T2 std::decay_t<Element>::*
+	>
+	constexpr auto member_cast(PM member) & -> subarray<T2, D, P2> {
+		static_assert(sizeof(T)%sizeof(T2) == 0,
+			"array_member_cast is limited to integral stride values, therefore the element target size must be multiple of the source element size. "
+			"Use custom alignas structures (to the interesting member(s) sizes) or custom pointers to allow reintrepreation of array elements"
+		);
+		return subarray<T2, D, P2>(this->layout().scale(sizeof(T), sizeof(T2)), static_cast<P2>(&(this->base_->*member)));
+	}
+	template<
+		class T2, class P2 = typename std::pointer_traits<ElementPtr>::template rebind<T2>,
+		class Element = T,
+		class PM = T2 std::decay_t<Element>::*
+	>
+	constexpr auto member_cast(PM member) && -> subarray<T2, D, P2> {
+		return this->template member_cast<T2, P2, Element, PM>(member);
+	}
 
 	using const_subarray<T, D, ElementPtr, Layout>::begin;
 	constexpr auto begin() && { return this->begin_aux_(); }
@@ -3218,20 +3246,12 @@ struct const_subarray<T, 1, ElementPtr, Layout>  // NOLINT(fuchsia-multiple-inhe
 		>(std::forward<UF>(fun));
 	}
 	template<class UF>
-	constexpr auto element_transformed(UF&& fun)  & {
-		return static_array_cast<
-			std::decay_t<std::invoke_result_t<UF const&, element_ref >>,
-			transform_ptr<
-				std::decay_t<std::invoke_result_t<UF const&, element_ref >>,
-				UF, element_ptr      , std::invoke_result_t<UF const&, element_ref >
-			>
-		>(std::forward<UF>(fun));
-	}
+	constexpr auto element_transformed(UF&& fun)  & {return static_cast<const_subarray const&>(*this).element_transformed(std::forward<UF>(fun));}
 	template<class UF>
-	constexpr auto element_transformed(UF&& fun) && {return element_transformed(std::forward<UF>(fun));}
+	constexpr auto element_transformed(UF&& fun) && {return static_cast<const_subarray const&>(*this).element_transformed(std::forward<UF>(fun));}
 
 	template<
-		class T2, class P2 = typename std::pointer_traits<element_ptr>::template rebind<T2>,
+		class T2, class P2 = typename std::pointer_traits<element_ptr>::template rebind<T2 const>,
 		class Element = typename const_subarray::element,
 		class PM = T2 std::decay_t<Element>::*
 	>
@@ -3245,7 +3265,7 @@ struct const_subarray<T, 1, ElementPtr, Layout>  // NOLINT(fuchsia-multiple-inhe
 		// NOLINTNEXTLINE(cppcoreguidelines-pro-type-reinterpret-cast) reinterpret is what the function does. alternative for GCC/NVCC
 		auto&& r1 = (*(reinterpret_cast<typename const_subarray::element_type* const&>(const_subarray::base_))).*member;  // ->*pm;
 		// NOLINTNEXTLINE(cppcoreguidelines-pro-type-reinterpret-cast) TODO(correaa) find a better way
-		auto* p1 = &r1; P2 p2 = reinterpret_cast<P2&>(p1);  //NOSONAR
+		auto* p1 = &r1; P2 p2 = [&] { if constexpr(std::is_pointer_v<P2>) { return static_cast<P2>(p1); } else { return reinterpret_cast<P2&>(p1); } }();  //NOSONAR
 #else
 		auto p2 = static_cast<P2>(&(this->base_->*member));  // this crashes nvcc 11.2-11.4 and some? gcc compiler
 #endif
